@@ -210,7 +210,7 @@ PROPS = {
     ),
     'C04': dict(
         level='proof',
-        verus_units=['broker_service', 'broker_conn_state', 'client_broker_subscriptions'],
+        verus_units=['broker_service', 'broker_conn_state', 'client_broker_subscriptions', 'broker_handlers_subs'],
         trusted_base=TB_VERUS + [
             'ConnectionId and the UUID cookie newtypes are opaque keys whose Hash/Eq obey vstd\'s key model '
             '(obeys_key_model axioms; justified by conn_id.rs / ids.rs deriving both from the same field)',
